@@ -41,12 +41,18 @@ PATCHES = {
     # a call to the function the patch is inserted into (recursion)
     "callf": ("call f", {}, "call"),
     "jcc": ("je L2", {}, "jcc"),
+    # a call to the function the patch is inserted into, then a return (the patch's ret and the callee's ret are rets of ONE function)
+    "callfret": ("call f\nret", {}, "ret"),
     "lab": ("nop\nP1:\nnop", {"P1": 1}, None),
     "lab0": ("P0:\nnop", {"P0": 0}, None),
     "jmplab": ("jmp L2\nP2:", {"P2": 2}, "jmp"),
     "cfi": ("pushq %rax\n.cfi_adjust_cfa_offset 8\npopq %rax\n.cfi_adjust_cfa_offset -8", {}, None),
     # two IDENTICAL directives at one position (CFI directives are not idempotent), balanced by one directive
     "cfidup": ("pushq %rax\npushq %rax\n.cfi_adjust_cfa_offset 8\n.cfi_adjust_cfa_offset 8\npopq %rax\npopq %rax\n.cfi_adjust_cfa_offset -16", {}, None),
+    # the balanced-CFI patch with stack-moving constraints (flags saved / a scratch register), and a CFI-less one
+    "cficlob": ("pushq %rax\n.cfi_adjust_cfa_offset 8\npopq %rax\n.cfi_adjust_cfa_offset -8", {}, None),
+    "cfiscratch": ("pushq %rax\n.cfi_adjust_cfa_offset 8\npopq %rax\n.cfi_adjust_cfa_offset -8", {}, None),
+    "twoclob": ("pushq %rax\npopq %rax", {}, None),
     # balanced CFI whose LAST directive follows a label at the very end of the patch; several labels at one position each with a directive
     "cfilab": ("pushq %rax\n.cfi_adjust_cfa_offset 8\npopq %rax\nPX:\n.cfi_adjust_cfa_offset -8", {"PX": 2}, None),
     "cfistack": ("nop\nPA:\n.cfi_remember_state\nPB:\n.cfi_adjust_cfa_offset 16\nPC:\n.cfi_restore_state\nnop", {"PA": 1, "PB": 1, "PC": 1}, None),
@@ -85,8 +91,12 @@ CFI_D = {"start": (".cfi_startproc", [], NULL_UUID), "end": (".cfi_endproc", [],
          "rem": (".cfi_remember_state", [], NULL_UUID), "rest": (".cfi_restore_state", [], NULL_UUID)}
 
 
-def mkpatch(txt):
-    @patch_constraints()
+# patches whose Constraints are not the default ones (the ABI then wraps them in a prologue / epilogue that moves the stack pointer)
+PATCH_CONSTRAINTS = {"cficlob": dict(clobbers_flags=True), "cfiscratch": dict(scratch_registers=1), "twoclob": dict(clobbers_flags=True)}
+
+
+def mkpatch(txt, constraints=None):
+    @patch_constraints(**(constraints or {}))
     def p(ctx):
         return txt
     return Patch.from_function(p)
@@ -226,9 +236,9 @@ def compatible(edits, size):
 def register(ctx, block, edit):
     op, o, l, pn = edit
     if op == "ins":
-        ctx.insert_at(block, o, mkpatch(PATCHES[pn][0]))
+        ctx.insert_at(block, o, mkpatch(PATCHES[pn][0], PATCH_CONSTRAINTS.get(pn)))
     elif op == "rep":
-        ctx.replace_at(block, o, l, mkpatch(PATCHES[pn][0]))
+        ctx.replace_at(block, o, l, mkpatch(PATCHES[pn][0], PATCH_CONSTRAINTS.get(pn)))
     elif op == "del":
         ctx.delete_at(block, o, l)
     elif op == "delproxy":
